@@ -193,7 +193,7 @@ def h_acquire(pre, mode):
     E.obj = ctl
     peer = world.IP1
     a = None
-    if pre == 'established':
+    if pre == 'established' or pre.startswith('busy_'):
         # the peer (alice) establishes an IKE_SA with the controller first
         a = ik.IkeSa(is_initiator=True, peer_spi=b'\0' * 8, configuration=conf.get_ike_configuration(world.IP1, world.IP2), my_addr=world.IP1, peer_addr=world.IP2)
         A = world.Endpoint('A', a)
@@ -212,6 +212,19 @@ def h_acquire(pre, mode):
         if not ctl.ike_sas or ctl.ike_sas[0].state != S.ESTABLISHED:
             return ['n/a', 'peer could not establish']
     first = None
+    if pre.startswith('busy_'):
+        # the established IKE_SA with that peer has a request of its own outstanding (liveness probe, CHILD_SA rekey / delete)
+        first = ctl.ike_sas[0]
+        with E:
+            if pre == 'busy_dpd':
+                world.ENV.now = first.start_dpd_at + 3600
+                r1 = first.check_dead_peer_detection_timer()
+            else:
+                d1 = acquire_datagram(eng, world.IP2, world.IP1, ip_address('10.2.0.1'), ip_address('10.1.0.1'), 1000, 2000, 6, 7 << 3 | 1)
+                h1, m1, a1 = c14.MX.Xfrm.parse_message(d1)
+                r1, _, _ = ctl.process_acquire(m1, a1)
+        if r1 is None:
+            return ['n/a', 'no request outstanding']
     if pre == 'in_flight':
         # a first ACQUIRE started the initial exchange with the first peer; its IKE_SA waits for the IKE_SA_INIT response
         d1 = acquire_datagram(eng, world.IP2, world.IP1, ip_address('10.2.0.1'), ip_address('10.1.0.1'), 1000, 2000, 6, 7 << 3 | 1)
@@ -234,6 +247,17 @@ def h_acquire(pre, mode):
     entries = {7: conf.get_ike_configuration(world.IP2, world.IP1).protect[0], 9: conf.get_ike_configuration(world.IP2, world.IP1).protect[1]} \
         if which_peer == world.IP1 else {12: conf.get_ike_configuration(world.IP2, ip_address('192.168.0.3')).protect[0]}
     known = core.sym_or(*[(index >> 3) == k for k in entries])
+    if first is not None and which_peer == world.IP1 and pre.startswith('busy_'):
+        state0 = {'busy_dpd': S.DPD_REQ_SENT, 'busy_new_child': S.NEW_CHILD_REQ_SENT}[pre]
+        if len(ctl.ike_sas) != n_before or not any(e is first for e in ctl.ike_sas):
+            return {'class': ['acquire'], 'violation': f'an ACQUIRE arriving while the IKE_SA with that peer waits for a response ({state0.name}) opened another IKE_SA '
+                                                       f'instead of re-using it'}
+        if req is not None:
+            return {'class': ['acquire'], 'violation': f'a second request was emitted while a request is outstanding ({state0.name})'}
+        if first.state != state0:
+            return {'class': ['acquire'], 'violation': f'the ACQUIRE changed the state of the busy IKE_SA to {first.state.name}'}
+        P(core.sym_or(core.sym_not(known), len(first.pending_events) == 1), 'an ACQUIRE for a known policy was not queued on the busy IKE_SA with that peer')
+        return ['acquire', 'queued']
     if first is not None and which_peer == world.IP1:
         # the IKE_SA with that peer is busy: the ACQUIRE is queued on it, nothing is sent, the IKE_SA is kept and reused
         if req is not None:
@@ -341,6 +365,8 @@ def build_instances(tier):
             inst.append(Instance(f'install {sh} symbolic entry {k}', h_install, (sh, k), native=nat(h_install)))
     for nc, ne in ((1, 2), (2, 1), (2, 2)):
         inst.append(Instance(f'random indices conns={nc} entries={ne}', h_random_index, (nc, ne), native=nat(h_random_index)))
+    for pre in ('busy_dpd', 'busy_new_child'):
+        inst.append(Instance(f'acquire {pre}', h_acquire, (pre, 1), native=nat(h_acquire), must_reach=[('queued', lambda o: o == ['acquire', 'queued'])]))
     for pre in ('fresh', 'established', 'in_flight'):
         for mode in (0, 1):
             inst.append(Instance(f'acquire {pre} mode={mode}', h_acquire, (pre, mode), native=nat(h_acquire),
